@@ -238,7 +238,7 @@ func StartWatchdog(prop func() string) {
 // shards of a part; a replay file remembers it.
 func Quiet() {
 	if Verbose() {
-		grpclog.SetLoggerV2(grpclog.NewLoggerV2WithVerbosity(io.Discard, io.Discard, io.Discard, 1000))
+		grpclog.SetLoggerV2(verboseLogger{})
 		return
 	}
 	grpclog.SetLoggerV2(grpclog.NewLoggerV2(io.Discard, io.Discard, io.Discard))
@@ -260,3 +260,31 @@ func Verbose() bool {
 	})
 	return verbose
 }
+
+// verboseLogger answers true to every V(level) and discards what is logged - except that a harness may install a
+// hook that sees every info line (LogHook): the goroutine that logs can be held there, which is how a harness owns
+// the moment between "the library observed X" and "the library acts on X" wherever the library logs in between.
+type verboseLogger struct{}
+
+// LogHook, when set, is called with every formatted info line (only with Verbose()).
+var LogHook atomic.Pointer[func(msg string)]
+
+func logHook(msg string) {
+	if f := LogHook.Load(); f != nil {
+		(*f)(msg)
+	}
+}
+
+func (verboseLogger) Info(a ...interface{})               { logHook(fmt.Sprint(a...)) }
+func (verboseLogger) Infoln(a ...interface{})             { logHook(fmt.Sprintln(a...)) }
+func (verboseLogger) Infof(f string, a ...interface{})    { logHook(fmt.Sprintf(f, a...)) }
+func (verboseLogger) Warning(a ...interface{})            {}
+func (verboseLogger) Warningln(a ...interface{})          {}
+func (verboseLogger) Warningf(f string, a ...interface{}) {}
+func (verboseLogger) Error(a ...interface{})              {}
+func (verboseLogger) Errorln(a ...interface{})            {}
+func (verboseLogger) Errorf(f string, a ...interface{})   {}
+func (verboseLogger) Fatal(a ...interface{})              { panic(fmt.Sprint(a...)) }
+func (verboseLogger) Fatalln(a ...interface{})            { panic(fmt.Sprintln(a...)) }
+func (verboseLogger) Fatalf(f string, a ...interface{})   { panic(fmt.Sprintf(f, a...)) }
+func (verboseLogger) V(l int) bool                        { return true }
